@@ -75,6 +75,12 @@ Size(x) == CASE x.t = "b" -> Len(x.v)
 Ser32(ix) == << (ix.v \div 16777216) + (IF ix.h THEN 128 ELSE 0),
                 (ix.v \div 65536) % 256, (ix.v \div 256) % 256, ix.v % 256 >>
 IsIndex(ix) == ix.h \in BOOLEAN /\ ix.v \in 0..MaxIndex
+(* The BIP numbers the children of a key 0 .. 2^32-1: child number i = 2^31 [hardened] + v, the big-endian value    *)
+(* of ser32.  [h, v] and the single number i are two SPELLINGS of one child.  A library that takes (value, flag)    *)
+(* need not accept the single number above 2^31-1 - it may refuse it - but it must not answer it with any other     *)
+(* child than the one the BIP gives that number: the outcomes allowed for the spelling are                           *)
+ChildNumberBytes(ix) == Ser32(ix)
+NumberSpellingOutcomes(ix) == IF ix.h THEN {"refused", "that child"} ELSE {"that child"}
 
 \* ----------------------------------------------------------------- extended keys
 (* An extended key: [depth, pfp, cn, chain, key]                              *)
